@@ -300,7 +300,7 @@ StackAlloc(w, rank, s, lo, hi, kind, idx) ==
                          ELSE s = nS + 1 /\ nS' = nS + 1 /\ flS' = flS
                       /\ freeS' = freeS
   /\ stk[s].st \in {"none", "free"}
-  /\ (stk[s].st = "free" => stk[s].lo = lo /\ stk[s].hi = hi)
+  /\ (stk[s].st = "free" => stk[s].lo = lo)     \* a recycled block keeps its base; the usable size may differ within the class
   /\ stk' = [stk EXCEPT ![s] = [st |-> "live", own |-> 0, lo |-> lo, hi |-> hi, kind |-> kind, idx |-> idx]]
   /\ bad' = IF Overlaps(lo, hi) THEN Fail("C12: stack handed out overlaps a live stack") ELSE bad
   /\ UNCHANGED <<cur, got, cb, runq, lk, freeD, nD, nL, anw, tg, sv>>
